@@ -34,5 +34,5 @@ ASSUMPTIONS = ['tier H: hierarchies (a) serial->serial->root, (b) concurrent->se
                'histories are sequential; overlap is exercised through nested operations: while an item runs, client thread B submits synchronously to any level (if B must sleep its path ends there); worker choice: oldest pending hand-off',
                'workloops as hierarchy bottom are not covered: on this platform a serial queue targeting a dispatch_workloop crashes in _dispatch_lane_drain (DISPATCH_INVOKE_WORKLOOP_DRAIN dereferences a non-workloop wlh) - see DESIGN, known limitation of the build, not exercised',
                'depth <= 3, fan-in <= 2']
-LEVEL_TEXT = 'placeholder'
-LEVEL_NOTE = 'placeholder'
+LEVEL_TEXT = 'Tier H on real code: hierarchies serial->serial->root, concurrent->serial->root, two queues fanning in on one serial queue, the same built through dispatch_set_target_queue on an inactive queue + activate, with and without a client-chosen QoS attribute; every sequence of 2 (thorough 3) submissions addressed to any level, plus nested histories in which a second client submits synchronously to any level while an item of any level runs: at most one item of the hierarchy runs at a time, per-queue FIFO.'
+LEVEL_NOTE = "Depth <= 3, fan-in <= 2, sequential histories with nested client submissions; workloops as hierarchy bottom are not exercised (a serial queue targeting a workloop crashes on this platform's build); retargeting of ACTIVE queues is outside the property's quantifier."
